@@ -1,25 +1,9 @@
-(* Tie (C05, C06): the residue lists and output letters of Sequence.Omega / Omega_seq / kappa_X,
-   extracted from the source, are the model's {P,E,D,K,R} group and -1/+1/0 recoding. *)
+(* Tie (C05, C06): TWENTY_AAs lists the 20 residues (the recoding functions themselves: minipy_kappax_tie.v). *)
 From Coq Require Import List ZArith Bool String.
 From LC Require Import Core.Residue Model.Recode Gen.GSeq Gen.GTables.
 Import ListNotations.
 Local Open Scope string_scope.
 
-Lemma omega_members_tie :
-  forallb (fun r => Bool.eqb (mem_aa r g_omega_members) (mem_aa r omega_group)) all20 = true
-  /\ forallb (fun r => Bool.eqb (mem_aa r g_omegaseq_members) (mem_aa r omega_group)) all20 = true.
-Proof. vm_compute. split; reflexivity. Qed.
-
-Lemma omega_letters_tie : chg g_omega_in = (-1)%Z /\ chg g_omega_out = 1%Z.
-Proof. vm_compute. split; reflexivity. Qed.
-
-Lemma omega_seq_letters_tie : g_omegaseq_in = "X" /\ g_omegaseq_out = "O".
-Proof. split; reflexivity. Qed.
-
-Lemma kappaX_letters_tie : map chg g_kappaX_letters = [-1; 1; 0; -1; 1]%Z.
-Proof. vm_compute. reflexivity. Qed.
-
-Lemma parse_group_tie :
-  g_parse_group_uppercases_and_checks_twenty = true /\
+Lemma twenty_tie :
   forallb (fun r => mem_aa r GTables.twenty_aas) all20 = true /\ List.length GTables.twenty_aas = 20%nat.
 Proof. vm_compute. repeat split. Qed.
